@@ -3,7 +3,8 @@
 From Coq Require Import List ZArith NArith Bool.
 From RRSS Require Import Base.Outcome Base.Chars Base.F64 Base.F64Text Exec.Val Exec.Ops Front.Ast Exec.Env Exec.Interp.
 From RRSS Require Import Proofs.ValTables Proofs.ValLaws Proofs.InterpPure.
-From RRSS Require Import Proofs.ValValid.
+From RRSS Require Import Proofs.ValValid Proofs.FloatValid Proofs.InterpNum Proofs.ParseNum.
+From RRSS Require Import Front.Parser.
 Import ListNotations.
 
 (** the model of val.rs (written as the Rust is, with its argument-swapping recursion) computes
@@ -106,7 +107,30 @@ Theorem C03_arithmetic_stays_binary64 :
   (forall p, nvr (v_cast a p)) /\ nv (v_decay a).
 Proof. exact arithmetic_stays_binary64. Qed.
 
+(** ... and so does the whole interpreter: in every state a run of a parser-accepted program can stop in (normally or
+    with a runtime error; any fuel, input, fault position, build profile), every number — in any variable of any
+    scope, at any depth of arrays and dictionaries, and in the value a function hands back — is a binary64 datum
+    ([dn]: SpecFloat's [valid_binary] at (53,1024), recursively through arrays).  Literals are binary64 because the
+    lexer's numerals are ([C03_accepted_programs_have_binary64_literals]); everything else is closure. *)
+Theorem C03_accepted_programs_have_binary64_literals :
+  forall prof src p, parse prof src = ParseOk p -> forallb okb p = true.
+Proof. exact parsed_program_ok. Qed.
+
+Theorem C03_run_numbers_are_binary64 :
+  forall prof prof' src p fuel c, parse prof src = ParseOk p ->
+  match exec_program prof' fuel p c with
+  | XOk xs e => dn_env e /\ dn_opt (xret xs)
+  | XErr _ e => dn_env e
+  | _ => True
+  end.
+Proof. exact run_numbers_are_binary64. Qed.
+
+Theorem C03_expression_values_are_binary64 :
+  forall prof f x e a e1, okx x = true -> dn_env e -> produce_expr prof f x e = XOk a e1 -> dn a /\ dn_env e1.
+Proof. exact expression_values_are_binary64. Qed.
+
 Print Assumptions C03_equals_table.
 Print Assumptions C03_compare_table.
 Print Assumptions C03_call_free_expressions_have_no_effect.
 Print Assumptions C03_arithmetic_stays_binary64.
+Print Assumptions C03_run_numbers_are_binary64.
